@@ -199,6 +199,12 @@ func workMain(args []string) int {
 		return 2
 	}
 	start := time.Now()
+	if vsim.RaceEnabled && *out != "" {
+		// a race report during the warm-up kills the process too: leave a marker
+		rf := ReplayFile{Property: *propID, Signature: "race", Seed: *seed, Tier: *tier, Race: true, Params: json.RawMessage(`{"warmup":true}`), WarmupOnly: true}
+		b, _ := json.MarshalIndent(rf, "", " ")
+		os.WriteFile(*out+".current.json", b, 0o644)
+	}
 	warmUp()
 	known := loadKnown(*propID)
 	st := NewStats()
@@ -386,6 +392,10 @@ func replayMain(args []string) int {
 		return 2
 	}
 	warmUp()
+	if rf.WarmupOnly {
+		fmt.Println("NOT-REPRODUCED (warm-up operations completed without a race report)")
+		return 0
+	}
 	params := prop.NewParams()
 	if err := json.Unmarshal(rf.Params, params); err != nil {
 		fmt.Fprintln(os.Stderr, err)
